@@ -96,6 +96,10 @@ def print_sheet(r, rules):
                     out.add(spell_ws(r, False))
                 x["close"] = simple("}")
                 emit_free(x["close"])
+        elif x["t"] == "cdo":
+            x["tok"] = T(x["which"], None, "<!--" if x["which"] == "cdo" else "-->", ws=True)
+            emit(x["tok"])
+            out.add(" ")
         elif x["t"] == "import":
             x["toks"] = import_tokens(x)
             for t in x["toks"]:
@@ -130,6 +134,23 @@ def host_tokens(x):
         toks += [T("idhash", "main", "#main", ctx="sel", wsmean="mustnot")]
     elif c == "list":
         toks += [simple(",", ctx="sel"), delim(".", ctx="sel", ws=True), ident("a", ctx="sel", cls=True, wsmean="mustnot")]
+    elif c in ("pre-list", "pre-list-2"):
+        toks = [delim(".", ctx="sel"), ident("a", ctx="sel", cls=True, wsmean="mustnot"), simple(",", ctx="sel")] + toks
+        if c == "pre-list-2":
+            toks += [simple(",", ctx="sel"), ident("b", ctx="sel", ws=True)]
+    elif c == "pre-class":
+        toks[0].wsmean = "mustnot"
+        toks = [delim(".", ctx="sel"), ident("c", ctx="sel", cls=True, wsmean="mustnot")] + toks
+    elif c == "pre-star":
+        toks[0].wsmean = "mustnot"
+        toks = [delim("*", ctx="sel")] + toks
+    elif c == "pre-desc":
+        toks[0].ws = True
+        toks[0].wsmean = "must"
+        toks = [ident("view", ctx="sel")] + toks
+    elif c == "in-is":
+        toks[0].wsmean = "mustnot"
+        toks = [simple(":", ctx="sel"), func("is", ctx="sel", wsmean="mustnot")] + toks + [simple(")", ctx="sel")]
     return toks
 
 
@@ -192,6 +213,11 @@ def import_tokens(x):
             mt += [word("print"), simple(",", ctx="prelude"), word("screen")]
         if m == "paren-and-paren":
             mt += paren()
+        if m in ("general-enclosed", "screen-and-general"):
+            # `<general-enclosed>`: a function the media query grammar leaves to the future
+            if m == "screen-and-general":
+                mt += [word("screen"), word("and")]
+            mt += [func("foo", ctx="prelude", ws=True), ident("x", ctx="prelude"), simple(")", ctx="prelude")]
         if m in ("screen-and-paren", "all-and-paren", "only-screen-and-paren", "paren-and-paren"):
             mt.append(word("and"))
         if m in ("paren", "screen-and-paren", "all-and-paren", "only-screen-and-paren", "paren-and-paren"):
@@ -284,6 +310,11 @@ def expected(rules, opts):
             if x["t"] == "import":
                 do_import(x, outs, first)
                 continue
+            if x["t"] == "cdo":
+                outs[0].append(E(x["which"], src=x["tok"]))
+                continue
+            # (inside a group rule, only the rules that precede the group rule count as "other rules before")
+            before = state["only_imports"]
             if not (x["t"] == "at" and x["name"] == "charset"):
                 state["only_imports"] = False
             if x["t"] == "rule":
@@ -329,7 +360,9 @@ def expected(rules, opts):
                     continue
                 outs[0].append(E("{", src=x["open"]))
                 if x["body"] == "rules":
+                    state["only_imports"] = before
                     walk(x["rules"], outs, at_stack + [pre])
+                    state["only_imports"] = False
                 elif x["body"] == "decls":
                     conv_decls(x["decls"], outs[0])
                 else:
